@@ -73,6 +73,13 @@ NcMappedCases == { Case("nc", 0, [Chain(1) EXCEPT ![1].nc = NcOf(side, cn), ![3]
                      side \in {"perm", "excl"},
                      cn \in { Ip(Mapped(<<0, 0, 0, 0>>), 96), Ip(Mapped(<<10, 0, 0, 0>>), 104), Ip(<<10, 0, 0, 0>>, 8) },
                      nm \in { Ip(Mapped(<<10, 1, 2, 3>>), 128), Ip(<<10, 1, 2, 3>>, 32), Ip(Mapped(<<11, 1, 2, 3>>), 128) } }
+(* two address subtrees in one list (the second one must be as good as the first), same and mixed families *)
+Net4b == <<172, 16, 0, 0>>
+NcTwoIpCases == { Case("nc", pos - 1, [Chain(1) EXCEPT ![pos].nc = ncv, ![3].names = <<nm>>], Now, "server") :
+                    pos \in 1..2,
+                    ncv \in { [perm |-> <<Ip(V4Net, 25), Ip(Net4b, 12)>>, excl |-> <<>>], [perm |-> <<>>, excl |-> <<Ip(V4Net, 25), Ip(Net4b, 12)>>],
+                              [perm |-> <<Ip(V6Net, 64), Ip(Net4b, 12)>>, excl |-> <<>>], [perm |-> <<>>, excl |-> <<Ip(V6Net, 64), Ip(Net4b, 12), Ip(V4Net, 25)>>] },
+                    nm \in { Ip(<<172, 17, 1, 1>>, 32), Ip(<<172, 32, 1, 1>>, 32), Ip(V4Net, 32), Ip(<<10, 129, 3, 1>>, 32) } }
 (* several names: one inside, one outside *)
 NcMixCases == { Case("nc", 0, [Chain(1) EXCEPT ![1].nc = NcOf("perm", Dns(<<"example", "test">>)), ![3].names = nms], Now, "server") :
                   nms \in { <<Dns(<<"a", "example", "test">>), Dns(<<"b", "example", "test">>)>>, <<Dns(<<"a", "example", "test">>), Dns(<<"other", "org">>)>>,
@@ -84,7 +91,7 @@ KuSets == { <<>>, <<5>>, <<6>>, <<0, 5>>, <<0>>, <<0, 6>>, <<0, 6, 6>>, <<5, 6, 
 CertSignCases == { Case("certsign", pos - 1, [Chain(n) EXCEPT ![pos].ku = k], Now, "server") : n \in 0..2, pos \in 1..3, k \in KuSets }
 
 Wf(k) == k.pos + 1 <= Len(k.chain) /\ (k.grp \in {"caflag", "pathlen", "certsign", "nc"} => k.pos + 1 < Len(k.chain))
-Cases == { k \in OkCases \cup CaFlagCases \cup CaFlagBareCases \cup FarTimeCases \cup PathLenCases \cup TimeCases \cup NcDnsCases \cup NcIp4Cases \cup NcIp6Cases \cup NcMixCases \cup NcMappedCases
+Cases == { k \in OkCases \cup CaFlagCases \cup CaFlagBareCases \cup FarTimeCases \cup PathLenCases \cup TimeCases \cup NcDnsCases \cup NcIp4Cases \cup NcIp6Cases \cup NcMixCases \cup NcMappedCases \cup NcTwoIpCases
                   \cup EkuCases \cup CertSignCases : Wf(k) }
 
 Init == c \in Cases /\ phase = "built" /\ verdict = FALSE
